@@ -62,8 +62,13 @@ func Compile(grammar *Grammar, opts Options) (*Tables, error) {
 		minimize(c.out, grammar)
 	}
 	if opts.Optimize {
-		numRules := len(c.out.RuleLen) // takes into account runtime lookahead rules
-		c.out.Optimized = Optimize(c.out.DefaultEnc, grammar.Terminals, numRules, opts.DefaultReduce)
+		if c.out.UsedLADepth > 1 {
+			// The displacement encoding has no representation for multi-token lookahead actions.
+			c.s.Errorf(c.grammar.Origin, "optimizeTables is not supported for grammars that need lalr(k) lookahead with k > 1")
+		} else {
+			numRules := len(c.out.RuleLen) // takes into account runtime lookahead rules
+			c.out.Optimized = Optimize(c.out.DefaultEnc, grammar.Terminals, numRules, opts.DefaultReduce)
+		}
 	}
 	return c.out, c.s.Err()
 }
